@@ -1327,6 +1327,11 @@ def fn_model_check(ctx: Ctx, progs: t.List[dict], per_prog: t.List[dict], stats:
                 reqs.append({"kind": "sequence", "engine": e, "rows": [[_fn_value(p, data[k], "start"), _fn_value(p, data[k], "stop")] for k in ok]})
                 meta.append((i, e, ok))
                 continue
+            elif fn == "rint":
+                ok = [k for k in ids if isinstance(_fn_value(p, data[k], "col"), (int, float)) and float(_fn_value(p, data[k], "col") * 2).is_integer()]
+                reqs.append({"kind": "rint", "engine": e, "rows": [[int(_fn_value(p, data[k], "col") * 2)] for k in ok]})
+                meta.append((i, e, ok))
+                continue
             elif fn == "regexp_replace" and (_fn_value(p, {}, "position") in (None, 1)):
                 pat = _fn_value(p, {}, "pattern")
                 ok = [k for k in ids if _fn_value(p, data[k], "str") is not None]
@@ -1377,6 +1382,16 @@ def fn_model_check(ctx: Ctx, progs: t.List[dict], per_prog: t.List[dict], stats:
                 if bad <= 3:
                     ctx.broken.append(f"correspondence ({r['kind']} model): {show_prog(p)[:260]}: the {e} statement gives {got[k]!r} on row {k}, Impl/C12Fns (regenerated decisions) gives {m!r}")
                 break
+        # the REFERENCE itself against the specification: the DuckDB session is what every other engine is compared with, so a
+        # change of its own rendering that happens to agree with the other emulations is invisible to the cross-engine comparison;
+        # where the Lean specification (PySpark's value) exists, the DuckDB session's rows must equal it on every row that meets
+        # the scope hypotheses the driver reports
+        if e == "duckdb" and r["kind"] != "regexp":
+            hkeys = [x for x in o if x.startswith("H_")]
+            for j, (k, sp) in enumerate(zip(ids, o["spec"])):
+                if k in got and all(o[hk][j] for hk in hkeys) and canon_value(sp) != got[k]:
+                    pp["fails"].append(f"[duckdb-session.collect()] row {k}: the DuckDB session returns {got[k]!r}, PySpark's value (Lean specification of {p['fn']}) is {canon_value(sp)!r}")
+                    break
 
 
 def exercise(ctx: Ctx) -> t.Tuple[t.List[dict], dict]:
